@@ -213,7 +213,6 @@ class BatchSage:
                 marginal_contribution = loss_previous - feature_loss
                 sage_values[feature] += marginal_contribution
                 loss_previous = feature_loss
-            n_data = n
         self.importance_values = {feature: sage_value / n_data
                                   for feature, sage_value in sage_values.items()}
         return self.importance_values
